@@ -4,7 +4,7 @@ from __future__ import annotations
 import json
 
 from harness.lib import CORPUS, GEN, Finding, PropertyCheck, TranslateError, run_bool_cases
-from harness.props.c13_interp import (KNOWN_ORDER_KEY, BadRef, HistGen, cq_prog, cq_state, cq_val, run_history,
+from harness.props.c13_interp import (KNOWN_ORDER_KEY, BadRef, HistGen, HistoryTimeout, cq_prog, cq_state, cq_val, run_history,
                                       small_scope)
 from translate import astutil, tr_promise
 
@@ -49,7 +49,7 @@ def shrink(prog, key):
             it = run_history(cand)
             if any(k == key for k, _ in it.findings):
                 cur = cand
-        except (BadRef, RecursionError):
+        except (BadRef, RecursionError, HistoryTimeout):
             pass
         i -= 1
     return cur
@@ -59,7 +59,7 @@ class Check(PropertyCheck):
     id = "C13"
     module = "Props.C13"
     theorems = ["C13_cfgs_good", "C13_settle_once", "C13_first_settlement_wins", "C13_callback_after_settlement",
-                "C13_no_callback_while_pending", "C13_callback_at_most_once", "C13_callback_exactly_once",
+                "C13_called_is_registered_callback", "C13_no_callback_while_pending", "C13_callback_at_most_once", "C13_callback_exactly_once",
                 "C13_nothing_left_behind", "C13_order_refuted", "C13_order_fixed", "C13_order_holds_fixed",
                 "C13_order_shipped_partial", "C13_nonvacuous"]
     extra_modules = ["Model.Promise", "Proofs.PromiseBase"]
@@ -122,14 +122,22 @@ class Check(PropertyCheck):
         else:
             progs += ss
         for _ in range(450 if quick else 8000):
+            if g.hangs >= 2:
+                break
             progs.append(g.history(self.rng.randint(3, 9)))
         cfg = self.cfg_term()
-        terms, kept = [], []
+        terms, kept, hung = [], [], []
         for prog in progs:
+            if len(hung) >= 2:
+                break
             try:
                 it = run_history(prog)
             except RecursionError:
                 self.stat("correspondence", "skipped:RecursionError")
+                continue
+            except HistoryTimeout:
+                self.stat("correspondence", "implementation did not terminate")
+                hung.append(prog)
                 continue
             if has_other(it.final_states) or has_other(it.calls):
                 self.stat("correspondence", "skipped:value outside the model")
@@ -157,7 +165,10 @@ class Check(PropertyCheck):
                 f"(incl. the ones promise.py creates internally) and the user-callback invocation log",
                 ok and not failing,
                 "\n".join(diags) + "".join(f"\nmismatch on history: {json.dumps(kept[i])}" for i in failing[:5]))
-        self.mismatches = [kept[i] for i in failing]
+        self.mismatches = hung[:3] + [kept[i] for i in failing]
+        if hung:
+            self.ob("correspondence", "every generated history terminates on the implementation", False,
+                    "did not finish within 2 s: " + json.dumps(hung[0]))
 
     # ------------------------------------------------------------------
     def judge(self, prog, origin):
@@ -166,6 +177,15 @@ class Check(PropertyCheck):
             it = run_history(prog)
         except RecursionError:
             self.stat("oracle", "skipped:RecursionError")
+            return []
+        except HistoryTimeout as e:
+            self.stat("oracle_findings", "hang")
+            detail = str(e)
+            if sum(1 for f in self.findings if f.key.startswith("hang:")) < 2:
+                self.findings.append(Finding(f"hang:{json.dumps(prog)}"[:300],
+                                             "the implementation does not finish this history within 2 s: " + detail,
+                                             {"kind": "history", "prog": prog, "key": "hang", "origin": origin}))
+            self.hangs = getattr(self, "hangs", 0) + 1
             return []
         except BadRef:
             self.stat("oracle", "skipped:bad reference")
@@ -197,25 +217,32 @@ class Check(PropertyCheck):
         for prog in getattr(self, "mismatches", [])[:20]:
             self.judge(prog, "correspondence-mismatch")
         # the Coq witness of C13_order_refuted decides which variant the code is in
-        wit = run_history(WITNESS)
+        try:
+            wit_calls = run_history(WITNESS).calls
+        except (HistoryTimeout, RecursionError):
+            wit_calls = "did not terminate"
         variant = self.info["variant"] if self.info else None
-        if wit.calls == WITNESS_SHIPPED_LOG:
+        if wit_calls == WITNESS_SHIPPED_LOG:
             behaves = "shipped"
-        elif wit.calls == WITNESS_FIXED_LOG:
+        elif wit_calls == WITNESS_FIXED_LOG:
             behaves = "fixed"
         else:
-            behaves = f"neither (log {wit.calls})"
+            behaves = f"neither (log {wit_calls})"
         self.ob("oracle", f"witness of C13_order_refuted on the real code behaves as '{behaves}'; translator extracted variant "
                 f"'{variant}'", variant is None or behaves == variant,
                 "the variant the translator extracted and the behaviour of the witness history disagree")
         self.judge(WITNESS, "coq-witness")
         n = 0
         for prog in small_scope(4 if quick else 5):
+            if getattr(self, "hangs", 0) >= 3:
+                break
             self.judge(prog, "small-scope")
             n += 1
         self.stat("oracle", "small_scope_histories", n)
         g = HistGen(self.rng)
         for _ in range(2500 if quick else 60000):
+            if getattr(self, "hangs", 0) >= 3 or g.hangs >= 3:
+                break
             prog = g.history(self.rng.randint(3, 10))
             self.judge(prog, "random")
             self.stat("oracle", "random_histories")
@@ -228,7 +255,12 @@ class Check(PropertyCheck):
     def replay(self, doc):
         r = doc.get("replay", {})
         if r.get("kind") == "history":
-            it = run_history(r["prog"])
+            try:
+                it = run_history(r["prog"])
+            except HistoryTimeout as e:
+                print("history:", json.dumps(r["prog"]))
+                print("FAILS: hang - the implementation does not finish this history within 2 s:", e)
+                return 1
             print("history:", json.dumps(r["prog"]))
             print("user-callback log:", it.calls)
             print("final states:", it.final_states)
